@@ -84,7 +84,9 @@ func drawC11(rt *rapid.T, tier string) C11Scenario {
 		Calm:     rapid.IntRange(0, 2).Draw(rt, "calm"),
 		TapeSeed: rapid.Uint64().Draw(rt, "tape_seed"),
 	}
-	sc.Backend = rapid.SampledFrom([]string{"", "", "", "", "", "", "", "", "", "rdb1", "rdb2", "rdb2"}).Draw(rt, "backend")
+	if rapid.IntRange(0, 9).Draw(rt, "rocksdb") == 0 { // a RocksDB run costs as much as twenty CDB runs
+		sc.Backend = rapid.SampledFrom([]string{"rdb1", "rdb2", "rdb2"}).Draw(rt, "backend")
+	}
 	sc.Tape = rapid.SliceOfN(rapid.Uint8(), 0, 64).Draw(rt, "tape")
 	return sc
 }
@@ -189,7 +191,7 @@ func runC11(t *testing.T, sc C11Scenario, keep bool) *core.Result {
 			res.HarnessErr = err.Error()
 			return res
 		}
-		if _, err := rdb.CompileToSpecificRDBVersion(in, out, rdb.CompilationOptions{NumCPU: 1, UseV2KeySyntax: sc.Backend == "rdb2", UseBuilder: true}); err != nil {
+		if _, err := rdb.CompileToSpecificRDBVersion(in, out, rdb.CompilationOptions{NumCPU: 1, UseV2KeySyntax: sc.Backend == "rdb2", BatchSize: 100000, BatchNumParallel: 1}); err != nil {
 			res.HarnessErr = "compile: " + err.Error()
 			return res
 		}
